@@ -114,6 +114,7 @@ type Scenario struct {
 	ServeQueries        int            `json:"serve_queries,omitempty"`          // C13: after convergence the honest node asks the service this many getheaders questions over the wire
 	HitAndRun           bool           `json:"hit_and_run,omitempty"`            // C07: at the end a host delivers the forbidden header and hangs up at once; a newcomer of that host must be refused (1 h ban)
 	ReOffend            bool           `json:"re_offend,omitempty"`              // C07: at the end a host with two connections sends the forbidden header, its ban (ban_duration_ms, seconds) elapses unnoticed, the second connection offends again, and a newcomer of that host must be refused
+	AgeHours            int            `json:"age_hours,omitempty"`              // every block (the announced ones too) is this many hours old: with 25+ the service never considers its chain current (it then follows inv announcements of its sync peer only)
 	IdleSec             int            `json:"idle_sec,omitempty"`               // after the initial sync nothing happens for this many seconds (the sync manager's periodic sync-peer check runs every 30 s and judges a quiet peer after three of them)
 	HeldWebhook         bool           `json:"held_webhook,omitempty"`           // a webhook is registered whose endpoint accepts every delivery and answers none of them until the initial sync has been judged
 	DropNode0AfterSync  bool           `json:"drop_node0_after_sync,omitempty"`  // C06: node 0 drops all connections after the initial sync and stays unreachable; node 1 (a laggard that catches up) is the honest announcer from then on
@@ -213,7 +214,7 @@ func (w *World) mine(prev refmodel.Hash, bits uint32, t uint32) refmodel.Hdr {
 // BuildWorld materialises the honest chain and every node's chain.
 func BuildWorld(s *Scenario, genesis refmodel.Hash) *World {
 	w := &World{Height: map[refmodel.Hash]int32{genesis: 0}, Parent: map[refmodel.Hash]refmodel.Hash{}, rng: rand.New(rand.NewSource(s.Seed))}
-	w.now = uint32(time.Now().Unix()) - 30 // tips a few seconds old: far from the 24 h "current" threshold
+	w.now = uint32(time.Now().Unix()) - 30 - uint32(s.AgeHours)*3600 // tips a few seconds old: far from the 24 h "current" threshold (unless age_hours says otherwise)
 	prev := genesis
 	for i := 0; i < s.HonestLen; i++ {
 		t := w.now - uint32(s.HonestLen-i)
@@ -899,7 +900,34 @@ func Execute(s *Scenario, dir string) (res *Result) {
 			}
 			x.w.ExtendHonest(1, genesis)
 			an.SetChain(x.w.Honest)
-			for _, c := range an.Live() {
+			// an old chain (age_hours): the service follows the inv announcements of its sync peer only, so every peer that
+			// has the whole chain announces - in the order of the scenario's last announcement round
+			var others []*Node
+			if s.AgeHours > 0 && len(s.Announce) > 0 {
+				for _, j := range s.Announce[len(s.Announce)-1].Nodes {
+					if j != x.ann && j < len(x.nodes) && s.Nodes[j].Kind == "laggard" && s.Nodes[j].Lag == 0 {
+						x.nodes[j].SetChain(x.w.Honest)
+						others = append(others, x.nodes[j])
+					}
+				}
+			}
+			annLive := func() []*Conn {
+				var cs []*Conn
+				first := len(s.Announce) > 0 && len(s.Announce[len(s.Announce)-1].Nodes) > 0 && s.Announce[len(s.Announce)-1].Nodes[0] != x.ann
+				if first {
+					for _, o := range others {
+						cs = append(cs, o.Live()...)
+					}
+				}
+				cs = append(cs, an.Live()...)
+				if !first {
+					for _, o := range others {
+						cs = append(cs, o.Live()...)
+					}
+				}
+				return cs
+			}
+			for _, c := range annLive() {
 				if c.Announce() == nil {
 					x.count("final_round_announcements", 1)
 					if c.WantsHeaders() {
@@ -930,7 +958,7 @@ func Execute(s *Scenario, dir string) (res *Result) {
 				}
 				// the SAME tip is announced again (no new block: a new block would be new information and could make up
 				// for an announcement the service wrongly ignored)
-				for _, c := range an.Live() {
+				for _, c := range annLive() {
 					c.RewindPeerKnown(int32(len(x.w.Honest) - 1))
 					_ = c.Announce()
 				}
